@@ -61,6 +61,8 @@ def main():
         if extra is not None:
             extra(report, {'scratch': scratch, 'repo': runner.REPO, 'tier': args.tier, 'seed': seed, 'jobs': args.jobs,
                            'world': w})
+        from props import tables
+        tables.run(report, {'scratch': scratch, 'repo': runner.REPO, 'tier': args.tier, 'seed': seed, 'jobs': args.jobs, 'world': w})
     except Exception:
         report.checker_errors.append(traceback.format_exc()[-3000:])
     return runner.finish(report, getattr(pm, 'LEVEL_TEXT', None))
